@@ -34,7 +34,13 @@ def run(ctx, replay, mode=MODE):
     if mode == MODE:
         # whole runs against Pprof.tla: every report's numbers are those of the pristine merged profile under the
         # options in effect (absolute oracle, complementing the fresh-session comparison above)
-        pipeline(ctx, kinds=("assign", "report", "noop", "end"))
+        try:
+            pipeline(ctx, kinds=("assign", "report", "noop", "end"))
+        except vcheck.Infra as e:
+            # violations recorded from the real code stand; a hang found by the first part would only recur here
+            if not ctx.violations:
+                raise
+            ctx.notes.append("whole-run validation not completed: %s" % str(e)[:300])
     return ctx.finish(
         "model_checking",
         assumptions=["the reference for a command is the same line typed into a fresh in-process session after exactly the assignments the specification says are in effect; the real code supplies the report function F",
